@@ -366,7 +366,7 @@ class Service:
 
         def outcome(tok: Any) -> Any:
             script = world.plan.get(('flaky', tok), [])
-            k = world.plan.get('attempt:' + netname, 0)
+            k = world.plan.get(('attempt', netname, tok), world.plan.get('attempt:' + netname, 0))
             step = script[k] if k < len(script) else 'ok'
             if step != 'ok':
                 raise JsonRpcError(code=step[1], message='scripted failure')
